@@ -83,6 +83,11 @@ func hexChar(tt *TermTable, nib *Term) *Term {
 func (eng *Engine) buildIntercepts() {
 	ic := map[string]interceptFn{}
 	eng.icByName = ic
+	eng.pureNames = map[string]bool{}
+	for _, n := range []string{"And", "Or", "Not", "Implies", "IteU64", "IteU8", "IteBool", "EqBytes", "AddOverflows"} {
+		eng.pureNames[envPkg+"."+n] = true
+	}
+	eng.pureNames["bytes.Equal"] = true
 
 	// ---------------- harness intrinsics ----------------
 	nondet := func(w int) interceptFn {
